@@ -6,6 +6,10 @@
    Writers are opened and closed as separate steps so that reads can be
    interleaved at every point; while a writer is open its object may or may not be
    visible ("maybe"), after a successful Close it MUST be ("yes").
+   Packs can also be superseded on the live handle (DeleteOldObjectPackAndIndex, what
+   RepackObjects does with old packs): an object that then has no loose copy is no
+   longer promised ("maybe") until it is written again - and a pack with the same
+   content (hence the same pack id) written again MUST make it visible again.
    Behaviour generator (Engine A): hist = operations with the expected visibility
    of every object after each step.                                            *)
 EXTENDS Naturals, Sequences, FiniteSets, TLC, Json
@@ -13,39 +17,60 @@ EXTENDS Naturals, Sequences, FiniteSets, TLC, Json
 CONSTANTS Objs, Writers, Kinds, ReadKinds, MaxOps, EmitAll
 
 Idle == [kind |-> "idle", obj |-> "none"]
-VARIABLES published, wstate, hist
-vars == <<published, wstate, hist>>
+VARIABLES published, wstate, hist,
+          loose,    \* objects with a loose copy (raw / lazy writers, SetEncodedObject)
+          packed,   \* objects whose single-object pack is present
+          unsure    \* objects dropped with their pack and not written since
+vars == <<published, wstate, hist, loose, packed, unsure>>
 
 TypeOK == /\ published \subseteq Objs
           /\ \A w \in Writers : wstate[w] = Idle \/ (wstate[w].kind \in Kinds /\ wstate[w].obj \in Objs)
 
-Init == published = {} /\ wstate = [w \in Writers |-> Idle] /\ hist = <<>>
+Init == published = {} /\ wstate = [w \in Writers |-> Idle] /\ hist = <<>> /\ loose = {} /\ packed = {} /\ unsure = {}
 
-Visible(pub, ws) == [o \in Objs |-> IF o \in pub THEN "yes"
-                                    ELSE IF \E w \in Writers : ws[w] # Idle /\ ws[w].obj = o THEN "maybe" ELSE "no"]
+Visible(pub, ws, uns) == [o \in Objs |-> IF o \in pub THEN "yes"
+                                    ELSE IF o \in uns \/ \E w \in Writers : ws[w] # Idle /\ ws[w].obj = o THEN "maybe" ELSE "no"]
 
-Log(op, w, kind, o) == hist' = Append(hist, [op |-> op, w |-> w, kind |-> kind, o |-> o, vis |-> Visible(published', wstate')])
+Log(op, w, kind, o) == hist' = Append(hist, [op |-> op, w |-> w, kind |-> kind, o |-> o, vis |-> Visible(published', wstate', unsure')])
 
 Open(w, k, o) == /\ wstate[w] = Idle
                  /\ \A v \in Writers : wstate[v] = Idle \/ wstate[v].obj # o   \* one writer per object at a time
                  /\ wstate' = [wstate EXCEPT ![w] = [kind |-> k, obj |-> o]]
-                 /\ UNCHANGED published /\ Log("open", w, k, o)
+                 /\ UNCHANGED <<published, loose, packed, unsure>> /\ Log("open", w, k, o)
 Close(w) == /\ wstate[w] # Idle
             /\ published' = published \cup {wstate[w].obj}
+            /\ IF wstate[w].kind = "pack" THEN packed' = packed \cup {wstate[w].obj} /\ UNCHANGED loose
+                                          ELSE loose' = loose \cup {wstate[w].obj} /\ UNCHANGED packed
+            /\ unsure' = unsure \ {wstate[w].obj}
             /\ wstate' = [wstate EXCEPT ![w] = Idle]
             /\ Log("close", w, wstate[w].kind, wstate[w].obj)
-SetObj(o) == /\ published' = published \cup {o} /\ UNCHANGED wstate /\ Log("set", "none", "set", o)
-Read(k) == /\ UNCHANGED <<published, wstate>> /\ Log("read", "none", k, "none")
+SetObj(o) == /\ published' = published \cup {o} /\ loose' = loose \cup {o} /\ unsure' = unsure \ {o}
+             /\ UNCHANGED <<wstate, packed>> /\ Log("set", "none", "set", o)
+\* a whole pack arrives in one step (open, write, close of a PackfileWriter)
+SetPack(o) == /\ \A v \in Writers : wstate[v] = Idle \/ wstate[v].obj # o
+              /\ published' = published \cup {o} /\ packed' = packed \cup {o} /\ unsure' = unsure \ {o}
+              /\ UNCHANGED <<wstate, loose>> /\ Log("setpack", "none", "pack", o)
+\* the pack of o is superseded and deleted on the live handle
+DropPack(o) == /\ o \in packed
+               /\ \A v \in Writers : wstate[v] = Idle \/ wstate[v].obj # o
+               /\ packed' = packed \ {o}
+               /\ published' = loose \cup packed'
+               /\ unsure' = IF o \in loose THEN unsure ELSE unsure \cup {o}
+               /\ UNCHANGED <<wstate, loose>> /\ Log("droppack", "none", "pack", o)
+Read(k) == /\ UNCHANGED <<published, wstate, loose, packed, unsure>> /\ Log("read", "none", k, "none")
 
 Next == /\ Len(hist) < MaxOps
         /\ \/ \E w \in Writers, k \in Kinds, o \in Objs : Open(w, k, o)
            \/ \E w \in Writers : Close(w)
-           \/ \E o \in Objs : SetObj(o)
+           \/ \E o \in Objs : SetObj(o) \/ SetPack(o) \/ DropPack(o)
            \/ \E k \in ReadKinds : Read(k)
 Spec == Init /\ [][Next]_vars
 
 \* the property: read-your-writes after a successful close, at every later point
+\* (until the object's pack is dropped, which ends the promise unless a loose copy exists)
 PublishedStaysVisible == \A i \in 1..Len(hist) : \A o \in Objs :
-    (hist[i].op \in {"close", "set"} /\ hist[i].o = o) => \A j \in i..Len(hist) : hist[j].vis[o] = "yes"
+    (hist[i].op \in {"close", "set", "setpack"} /\ hist[i].o = o) =>
+        \A j \in i..Len(hist) : (\A k \in (i+1)..j : ~(hist[k].op = "droppack" /\ hist[k].o = o)) => hist[j].vis[o] = "yes"
+LooseSurvivesDrop == \A o \in loose : o \in published
 EmitHist == (EmitAll /\ Len(hist) = MaxOps) => PrintT(ToJson(hist))
 =============================================================================
